@@ -491,6 +491,19 @@ func buildC16(rs *lexgen.RuleSet) (*c16Defs, string, outcome) {
 	d := &c16Defs{orig: def}
 	var msg string
 	var pmsg string
+	// what Rules() hands out is the caller's to edit as well: it must not be what the definition marshals later
+	pmsg = guard(func() {
+		got := def.Rules()
+		for state := range got {
+			for i := range got[state] {
+				got[state][i].Pattern = "edited-copy-of-Rules()"
+			}
+			delete(got, state)
+		}
+	})
+	if pmsg != "" {
+		return nil, "", violationf("roundtrip", "Rules() panicked: %s\n%s", pmsg, rs.String())
+	}
 	pmsg = guard(func() {
 		d.viaDef, msg = roundTrip(def)
 	})
